@@ -21,7 +21,7 @@ func c06NumCases(env *core.Env) int {
 	if env.Thorough() {
 		return 120000
 	}
-	return 8000
+	return 40000
 }
 
 // xOrderOf interprets an x-order extension the way the package documents it (Extensions.GetInt):
